@@ -199,6 +199,28 @@ def c02_step(before, rpc, out, after):
   return v
 
 
+def owner_step(before, rpc, out, after):
+  """No trial is ever assigned to two workers: across ANY call a stored trial that is not REQUESTED keeps its owner and never
+  becomes REQUESTED again (ownership is given once, when a queued trial is handed out or a trial is created)."""
+  v = []
+  nb, na = nodes_of(before), nodes_of(after)
+  if rpc[0] in ('DeleteStudy', 'CreateStudy'):
+    return v          # another study under the same name is a different study
+  for key, n in nb.items():
+    if key not in na:
+      continue
+    after_t = {t['id']: t for t in na[key]['trials']}
+    for t in n['trials']:
+      a = after_t.get(t['id'])
+      if a is None or t['state'] == 'REQUESTED':
+        continue
+      if a['client'] != t['client']:
+        v.append('trial %s/%d (%s, owner %r) changed owner to %r during %s' % (key, t['id'], t['state'], t['client'], a['client'], rpc[0]))
+      if a['state'] == 'REQUESTED':
+        v.append('trial %s/%d (%s) went back to REQUESTED during %s' % (key, t['id'], t['state'], rpc[0]))
+  return v
+
+
 def c06_step(before, rpc, out, after, calls):
   """A failing / misdelivering algorithm is reported and never wedges the study."""
   v = []
